@@ -270,6 +270,12 @@ func genFactsImpl(p *pkgInfo, out string) {
 						}
 					}
 				case *ast.SelectorExpr:
+					// a method called on package-level state (a pool, a mutex-less cache, a shared buffer or encoder …)
+					if g := globalRoot(f.X); g != "" {
+						if _, isSel := p.info.Selections[f]; isSel {
+							gwrites = append(gwrites, write{name, "method:" + f.Sel.Name, g})
+						}
+					}
 					if selInfo, ok := p.info.Selections[f]; ok {
 						if fn, ok := selInfo.Obj().(*types.Func); ok {
 							if fn.Pkg() == p.pkg {
